@@ -2,7 +2,9 @@
 Model of segment-group resolution and optimisation: `Cell.get_all_segments_in_group`,
 `Cell.get_segment_group`, `Cell.optimise_segment_group`, `Cell.optimise_segment_groups`
 (`neuroml/nml/helper_methods.py` and the identical copies inside `neuroml/nml/nml.py`, class `Cell`).
-Mathlib-free, executable.
+Mathlib-free, executable. This is the HAND model the C14 theorems are proved about; `Gen/Groups.lean` is the
+statement-by-statement translation of the Python source (rewritten on every run by `translators/groups_extract.py`)
+and `Props/C14.lean` (`c14_gen_*`) proves the two equal for all inputs.
 
 Ids are interned by the harness: a segment id is the `Nat` it is in the file; a segment-group id (a string in
 Python) is an arbitrary `Nat`, with two reserved values: `allId` for the string `"all"` (which
@@ -30,7 +32,9 @@ deriving Repr, DecidableEq, Inhabited
 inductive Err where
   | unknownGroup   -- `Exception("No segment group … found in cell …")` (get_all_segments_in_group)
   | notFound       -- `ValueError("Segment group with id … not found in cell …")` (get_segment_group)
-  | outOfFuel      -- unbounded recursion (`RecursionError`): only on cyclic include graphs
+  | outOfFuel      -- recursion deeper than the interpreter allows (`RecursionError`): every cyclic include graph,
+                   -- and acyclic include chains deeper than the recursion limit (known finding C14:recursion-limit)
+  | attributeError -- `'str' object has no attribute 'members'` (unreachable: see `Props/C14.lean`, `c14_gen_resolve`)
 deriving Repr, DecidableEq, Inhabited
 
 /-- interned id of the string `"all"` -/
@@ -72,6 +76,23 @@ def resolve (c : Cell) : Nat → Nat → Except Err (List Nat)
     | none => if g = allId then .ok c.segs else .error .unknownGroup
     | some G => G.includes.foldl (resStep (resolve c f)) (.ok (addNew [] G.members))
 
+/-- the argument of `get_all_segments_in_group`: a segment group id (`str`) or a `SegmentGroup` object -/
+inductive Arg where
+  | str (id : Nat)
+  | obj (G : Group)
+deriving Repr, DecidableEq, Inhabited
+
+/-- `get_all_segments_in_group(a, assume_all_means_all=aam)` for both kinds of argument. An object is used as it
+    is (it need not even belong to the cell); an id is looked up; the flag only matters for an undefined `"all"`.
+    Every recursive call passes an id and the default flag, i.e. is `resolve`. -/
+def resolveArg (c : Cell) : Nat → Arg → Bool → Except Err (List Nat)
+  | 0, _, _ => .error .outOfFuel
+  | f+1, .obj G, _ => G.includes.foldl (resStep (resolve c f)) (.ok (addNew [] G.members))
+  | f+1, .str g, aam =>
+    match findG c.groups g with
+    | none => if aam && g == allId then .ok c.segs else .error .unknownGroup
+    | some G => G.includes.foldl (resStep (resolve c f)) (.ok (addNew [] G.members))
+
 /-- insert `x` before the first element whose key is not smaller than its own -/
 def ins (key : Nat → Nat) (x : Nat) : List Nat → List Nat
   | [] => [x]
@@ -95,6 +116,13 @@ def unionCl (rec : Nat → Except Err (List Nat)) (is : List Nat) : Except Err (
 /-- the cell after the group object found for id `g` has been given new lists -/
 def setGroup (c : Cell) (g : Nat) (G' : Group) : Cell := ⟨c.segs, replaceFirst c.groups g G'⟩
 
+/-- the cell after the first two assignments of `optimise_segment_group` (`seg_group.members = list(members)`,
+    `seg_group.includes = natsorted(...)`): the group de-duplicated, its includes sorted, members not yet filtered.
+    The included groups are resolved in THIS cell (it matters only on malformed cells: which error is met first on a
+    cell that has both a cycle through `g` and a dangling include). -/
+def midCell (key : Nat → Nat) (c : Cell) (g : Nat) (G : Group) : Cell :=
+  setGroup c g ⟨G.id, dedup G.members, sortBy key (dedup G.includes)⟩
+
 /-- `optimise_segment_group(g)` (repaired form: de-duplication on the referenced ids, members filtered once
     against the union of the included groups). `key` = natural-sort key of group ids. -/
 def optimiseGroup (key : Nat → Nat) (c : Cell) (fuel : Nat) (g : Nat) : Except Err Cell :=
@@ -103,7 +131,7 @@ def optimiseGroup (key : Nat → Nat) (c : Cell) (fuel : Nat) (g : Nat) : Except
   | none => .error .notFound
   | some G =>
     if dedup G.includes ≠ [] ∧ dedup G.members ≠ [] then
-      match unionCl (resolve c fuel) (dedup G.includes) with
+      match unionCl (resolve (midCell key c g G) fuel) (dedup G.includes) with
       | .error e => .error e
       | .ok u =>
         .ok (setGroup c g ⟨G.id, sortBy (fun x => x) ((dedup G.members).filter (fun m => decide (m ∉ u))),
@@ -118,6 +146,49 @@ def optStep (key : Nat → Nat) (fuel : Nat) (acc : Except Err Cell) (g : Nat) :
 /-- `optimise_segment_groups()`: `for seg_group in self.morphology.segment_groups: optimise_segment_group(seg_group.id)` -/
 def optimiseAll (key : Nat → Nat) (c : Cell) (fuel : Nat) : Except Err Cell :=
   (c.groups.map (·.id)).foldl (optStep key fuel) (.ok c)
+
+/-! ### primitives the generated translation (`Gen/Groups.lean`, written by `translators/groups_extract.py`) uses
+
+Python values are represented as follows (the translator checks the conditions that make this sound and refuses
+otherwise): a `Member` / `Include` object is the segment id / group id it carries (the four methods never write to
+such an object and never compare two of them); a list or a `set` of them is a `List Nat` (every list or set that is
+mutated in place is created by the method itself, a `set` is only ever tested for membership); a `SegmentGroup`
+that is written to is a *reference*: its position in `morphology.segment_groups`. -/
+
+/-- `isinstance(a, str)` -/
+def Arg.isStr : Arg → Bool
+  | .str _ => true
+  | .obj _ => false
+
+/-- `s == a` for a string `s`: a `SegmentGroup` object is never equal to a string (`GeneratedsSuper.__eq__`
+    compares the types first) -/
+def Arg.eqId (s : Nat) : Arg → Bool
+  | .str t => s == t
+  | .obj _ => false
+
+/-- `a.members` -/
+def Arg.members : Arg → Except Err (List Nat)
+  | .obj G => .ok G.members
+  | .str _ => .error .attributeError
+
+/-- `a.includes` -/
+def Arg.includes : Arg → Except Err (List Nat)
+  | .obj G => .ok G.includes
+  | .str _ => .error .attributeError
+
+/-- truth value of a string: `if sg_id:` -/
+def strTruthy (s : Nat) : Bool := s != emptyId
+
+/-- the `SegmentGroup` at position `k` of `morphology.segment_groups` -/
+def grp (c : Cell) (k : Nat) : Group := c.groups.getD k default
+
+/-- `ref.members = m` -/
+def setMembers (c : Cell) (k : Nat) (m : List Nat) : Cell :=
+  ⟨c.segs, c.groups.set k { grp c k with members := m }⟩
+
+/-- `ref.includes = l` -/
+def setIncludes (c : Cell) (k : Nat) (l : List Nat) : Cell :=
+  ⟨c.segs, c.groups.set k { grp c k with includes := l }⟩
 
 /-! ### the code as it was before the repair (kept only to document the two defects)
 
